@@ -55,6 +55,22 @@ func CheckC09(tier string) {
 		return o
 	})...)
 	specs = append(specs, corpusSpecs("C09")...)
+	// acceptance side, continued: valid declarations that also list cycles
+	// which nothing reachable from the requested type depends on
+	{
+		ur := rand.New(rand.NewSource(base.Seed()*53 + 9))
+		k := 0
+		for _, s := range specs {
+			if k >= tierN(tier, 24, 200) {
+				break
+			}
+			if !strings.HasPrefix(s.Name, "v") || len(s.Injectors) == 0 || s.InvMode != "" || !s.Interpret(s.Injectors[0]).Valid() {
+				continue
+			}
+			specs = append(specs, s.WithUnreachableCycles(fmt.Sprintf("u%s", s.Name), ur))
+			k++
+		}
+	}
 	var progs []*runner.Prog
 	for _, s := range specs {
 		progs = append(progs, w.Add(s))
